@@ -25,9 +25,8 @@ type dmaJob struct {
 func dmaRun(j dmaJob) *trace.Scenario {
 	rng := rand.New(rand.NewSource(j.seed))
 	m := machine.New(cartImage(memCart), machine.Options{NoCPU: true})
-	if j.lcdOff {
-		m.QuietLCD()
-	}
+	// OAM is prepared with the LCD off; an LCD-on scenario switches it on again afterwards (see below)
+	m.QuietLCD()
 	if rng.Intn(3) > 0 {
 		m.M.Write(0x0000, 0x0a) // cartridge RAM enabled (else A000-BFFF sources read FF)
 	}
@@ -42,6 +41,14 @@ func dmaRun(j dmaJob) *trace.Scenario {
 		for i := 0; i < 160; i++ {
 			m.M.Write(uint16(0xfe00+i), uint8(rng.Intn(256)))
 			sc.Ev = append(sc.Ev, []any{"w", 0xfe00 + i, int(m.M.Read(uint16(0xfe00 + i)))})
+		}
+		if !j.lcdOff {
+			// LCD on, the transfer starting at a random point of a frame: every CPU access is followed by what the CPU
+			// does after it (oam.Corrupt applies whatever the access armed) - an access blocked by the transfer must arm nothing
+			m.P.WriteLCDC(0x91)
+			for k := rng.Intn(17556); k > 0; k-- {
+				m.P.EndMachineCycle()
+			}
 		}
 		srcNow := func() []int {
 			s := make([]int, 160)
@@ -72,11 +79,19 @@ func dmaRun(j dmaJob) *trace.Scenario {
 			m.Hardware()
 			sinceStart++
 			a := 0xfe00 + (t*7+rng.Intn(3))%0x100
-			sc.Ev = append(sc.Ev, []any{"t", a, int(m.M.Read(uint16(a)))})
+			if busy, _ := m.O.VerifDMA(); !busy && !j.lcdOff {
+				// with the LCD on and no transfer running an OAM access belongs to C17 (the OAM bug): time passes only
+				sc.Ev = append(sc.Ev, []any{"tk"})
+				continue
+			}
+			v := int(m.M.Read(uint16(a)))
+			m.O.Corrupt()
+			sc.Ev = append(sc.Ev, []any{"t", a, v})
 		}
 		all := make([]int, 160)
+		snap := m.O.VerifSnapshot()
 		for i := range all {
-			all[i] = int(m.M.Read(uint16(0xfe00 + i)))
+			all[i] = int(snap[i])
 		}
 		sc.Ev = append(sc.Ev, []any{"oam", all})
 	})
